@@ -110,18 +110,18 @@ Qed.
 
 (* ---- the callbacks: error list and active flag follow the panic records ---- *)
 Definition perr (sc : script) (i : item) : list (N * N) :=
-  match i with IPanic m 0 c => if c then [] else [(0, m)] | _ => [] end.
+  match i with IPanic m 0 c => if c then [] else [(0, m)] | IResetPanic m => [(0, m)] | _ => [] end.
 Definition perrs (sc : script) (l : list item) : list (N * N) := flat_map (perr sc) l.
 
 Lemma perrs_app sc a b : perrs sc (a ++ b) = perrs sc a ++ perrs sc b.
 Proof. apply flat_map_app. Qed.
 
-Lemma perrs_p0 sc l m : (forall i, In i l -> item_mod i = Some m) -> perrs sc l = perrs sc (p0s m l).
+Lemma perrs_p0 sc l m : (forall i, In i l -> Usr m i) -> perrs sc l = perrs sc (p0s m l).
 Proof.
   intros H. induction l as [|i l IH]; [reflexivity|]. cbn [perrs flat_map p0s filter].
-  assert (Hi : item_mod i = Some m) by (apply H; left; reflexivity).
+  assert (Hu : Usr m i) by (apply H; left; reflexivity). destruct Hu as [Hi Hs].
   assert (IH' : perrs sc l = perrs sc (p0s m l)) by (apply IH; intros j Hj; apply H; right; exact Hj).
-  unfold perrs in *. destruct i as [| | | | | |m0 who cc| | | | | |]; cbn [is_p0 perr app]; try exact IH'.
+  unfold perrs in *. destruct i as [| | | | | |m0 who cc| | | | | | |]; cbn [is_p0 perr app]; try exact IH'; try discriminate.
   destruct who; cbn [perr app]; [|exact IH'].
   cbn [item_mod] in Hi. injection Hi as ->. rewrite N.eqb_refl. cbn [flat_map perr]. rewrite IH'. reflexivity.
 Qed.
@@ -214,28 +214,36 @@ Proof.
 Qed.
 
 (* ---- one module event ---- *)
-Lemma sys_perrs sc l : Forall (fun i => is_sys i = true) l -> perrs sc l = [] /\ forall m, p0s m l = [].
+(* runtime records: no callback panic among them; the only error they stand for is that of a panicking Module::reset *)
+Definition no_rp (i : item) : Prop := match i with IResetPanic _ => False | _ => True end.
+
+Lemma sys_perrs sc l : Forall (fun i => is_sys i = true) l -> (Forall no_rp l -> perrs sc l = []) /\ forall m, p0s m l = [].
 Proof.
   induction 1 as [|i l Hi _ [IH1 IH2]]; [split; reflexivity|]. split.
-  - unfold perrs in *. cbn [flat_map]. rewrite IH1. destruct i; try discriminate; reflexivity.
+  - intros Hn. inversion Hn; subst. unfold perrs in *. cbn [flat_map]. rewrite IH1 by assumption. destruct i; try discriminate; try reflexivity. contradiction.
   - intros m. unfold p0s in *. cbn [filter]. rewrite IH2. destruct i; try discriminate; reflexivity.
 Qed.
 
 Lemma around_items sc now m f w :
   exists lsys, snd (around sc now m f w) = x_log (f {| x_w := activate now m w; x_log := [] |}) ++ lsys /\
-               Forall (fun i => is_sys i = true) lsys.
+               Forall (fun i => is_sys i = true) lsys /\
+               perrs sc lsys = rerr (cfg sc m) m (deactivate m (x_w (f {| x_w := activate now m w; x_log := [] |}))).
 Proof.
   unfold around. set (s := f {| x_w := activate now m w; x_log := [] |}).
-  unfold buf_process, shutdown_part. destruct (shut _); cbn [snd]; eexists; split; try reflexivity.
-  - apply Forall_app. split.
-    + apply Forall_forall. intros i Hi. destruct (cancelled_in _ _ _ _ Hi) as [(id & ->)|(id & ->)]; reflexivity.
-    + constructor; [reflexivity|constructor].
-  - constructor.
+  unfold buf_process, shutdown_part, rerr. cbn [w_mod set_buf set_fes]. destruct (shut _); cbn [snd]; eexists; (split; [reflexivity|]).
+  - assert (Hc : Forall (fun i => is_sys i = true) (cancelled m (cfg sc m) (w_mod (deactivate m (x_w s)) m)) /\
+                 Forall no_rp (cancelled m (cfg sc m) (w_mod (deactivate m (x_w s)) m))).
+    { split; apply Forall_forall; intros i Hi; destruct (cancelled_in _ _ _ _ Hi) as [(id & ->)|(id & ->)]; try reflexivity; exact I. }
+    destruct Hc as [Hc1 Hc2]. split.
+    + apply Forall_app. split; [exact Hc1|constructor; [reflexivity|apply rpanic_sys]].
+    + rewrite perrs_app, (proj1 (sys_perrs sc _ Hc1) Hc2). cbn [app perrs flat_map perr]. unfold rpanic.
+      destruct (c_rsend (cfg sc m)); reflexivity.
+  - split; [constructor|reflexivity].
 Qed.
 
 Lemma shutdown_part_active c now m w : active (w_mod (fst (shutdown_part c now m w)) m) = true -> active (w_mod w m) = true.
 Proof.
-  unfold shutdown_part. destruct (shut (w_mod w m)) as [[t|]|]; cbn [fst]; wsimpl; rewrite ?N.eqb_refl; cbn [active]; try discriminate.
+  unfold shutdown_part. destruct (shut (w_mod w m)) as [[t|]|]; cbn [fst]; rewrite ?ifse_mod; wsimpl; rewrite ?N.eqb_refl; cbn [active]; try discriminate.
   exact (fun H => H).
 Qed.
 
@@ -254,12 +262,12 @@ Lemma around_panic sc now m f w : CbOK m f ->
   w_err (fst (around sc now m f w)) = w_err w ++ perrs sc (snd (around sc now m f w)) /\
   (p0s m (snd (around sc now m f w)) <> [] -> active (w_mod (fst (around sc now m f w)) m) = false).
 Proof.
-  intros Hok Hf. destruct (around_items sc now m f w) as (lsys & El & Hsys).
-  destruct (sys_perrs sc lsys Hsys) as [Ps Ps0].
+  intros Hok Hf. destruct (around_items sc now m f w) as (lsys & El & Hsys & Ps).
+  destruct (sys_perrs sc lsys Hsys) as [_ Ps0].
   pose proof (Hf {| x_w := activate now m w; x_log := [] |} eq_refl) as [pe pd]. cbn [x_w] in pe, pd.
   destruct (Hok {| x_w := activate now m w; x_log := [] |}) as [_ (lu & Hlu & Uu)]. cbn [x_log app] in Hlu.
   split.
-  - rewrite El, perrs_app, Ps, app_nil_r.
+  - rewrite El, perrs_app, Ps, app_assoc.
     rewrite (perrs_p0 sc _ m) by (rewrite Hlu; intros i Hi; rewrite Forall_forall in Uu; apply (Uu i Hi)).
     rewrite <- (activate_err now m w), <- pe.
     unfold around. destruct (buf_process_glob (cfg sc m) now m (deactivate m (x_w (f {| x_w := activate now m w; x_log := [] |})))) as (_ & _ & He).
@@ -291,7 +299,7 @@ Definition PI (sc : script) (w : world) (tr : list erec) : Prop :=
 Lemma own_p0s_other m1 m l : Own m1 l -> m1 <> m -> p0s m l = [].
 Proof.
   intros Ho Hn. unfold p0s. induction l as [|i l IH]; [reflexivity|]. inversion Ho; subst. cbn [filter].
-  rewrite (IH H2). destruct i as [| | | | | |m0 who cc| | | | | |]; try reflexivity. destruct who; [|reflexivity].
+  rewrite (IH H2). destruct i as [| | | | | |m0 who cc| | | | | | |]; try reflexivity. destruct who; [|reflexivity].
   cbn [item_mod] in H1. injection H1 as ->. cbn [is_p0]. apply N.eqb_neq in Hn. rewrite Hn. reflexivity.
 Qed.
 
@@ -301,14 +309,16 @@ Lemma mod_event_PI sc w tr now m1 f knd smp (st : bool) :
   let e := {| e_kind := knd; e_time := now; e_items := l ++ smp |} in
   PI sc w tr -> CbOK m1 f ->
   (forall s, x_log s = [] -> PInv sc m1 (w_err (x_w s)) (f s)) ->
-  Forall (fun i => is_sys i = true) smp ->
+  Forall (fun i => is_sys i = true /\ no_rp i) smp ->
   (forall m, starts m e = if m =? m1 then st else false) ->
   (st = false -> active (w_mod (fst (around sc now m1 f w)) m1) = true -> active (w_mod w m1) = true) ->
   PI sc (fst (around sc now m1 f w)) (tr ++ [e]).
 Proof.
-  intros l e [He Hd] Hok Hf Hsmp Hst Hact.
+  intros l e [He Hd] Hok Hf Hsmp0 Hst Hact.
+  assert (Hsmp : Forall (fun i => is_sys i = true) smp) by (eapply Forall_impl; [|exact Hsmp0]; intros i [H _]; exact H).
+  assert (Hnrp : Forall no_rp smp) by (eapply Forall_impl; [|exact Hsmp0]; intros i [_ H]; exact H).
   destruct (around_panic sc now m1 f w Hok Hf) as [A1 A2]. fold l in A1, A2.
-  destruct (sys_perrs sc smp Hsmp) as [Ps Ps0].
+  destruct (sys_perrs sc smp Hsmp) as [Ps0' Ps0]. pose proof (Ps0' Hnrp) as Ps.
   pose proof (around_own sc now m1 f w Hok) as Ho. fold l in Ho.
   split.
   - rewrite items_snoc, perrs_app. cbn [e_items e]. rewrite perrs_app, Ps, app_nil_r, A1, He. reflexivity.
@@ -374,7 +384,7 @@ Proof.
     + intros m. rewrite dead_after_snoc. unfold dead_step, panics, starts. cbn. apply Hd.
   - unfold loop_rec. cbn [fst snd].
     assert (HP' : PI sc (set_fes w f) tr) by exact HP.
-    assert (Hsmp : forall k, Forall (fun i => is_sys i = true) [ISample t k]) by (intros k; constructor; [reflexivity|constructor]).
+    assert (Hsmp : forall k, Forall (fun i => is_sys i = true /\ no_rp i) [ISample t k]) by (intros k; constructor; [split; [reflexivity|exact I]|constructor]).
     destruct ev as [m1 far x|m1 x|m1|m1]; unfold process.
     + destruct HP as [He Hd]. cbn [fst snd app]. split.
       * rewrite items_snoc. cbn [e_items]. rewrite perrs_app. cbn. rewrite app_nil_r.
